@@ -45,7 +45,9 @@ theorem C07_flat_partial (cfg : Cfg) (sc : Script) (kd : Async.Kinds) (qm m0 qma
   exact ⟨hsim.log, hsim.mstate, hsim.models, hsim.queue⟩
 
 /-- **A condition is honoured whether its value arrives directly or through an awaitable; a callback
-runs the same whether it is a plain function, a coroutine or a coroutine that suspends.**
+runs the same whether it is a plain function, a coroutine, a coroutine that suspends, or a plain
+callable handing back a Task / a Future / an object with `__await__`** (`Async.Kinds` = every
+assignment of naturals, kinds 0–5 of `Model/Async.lean` included).
 Two async runs that differ only in the kind assignment agree. -/
 theorem C07_condition_awaitable (cfg : Cfg) (sc : Script) (kd1 kd2 : Async.Kinds) (qm m0 qmax fuel : Nat)
     (h : List Cmd) (s : St)
